@@ -36,6 +36,11 @@ pub struct Scn {
     /// git only: the interrupted call is a direct add_snapshot after X's sync
     pub git_snapshot: bool,
     pub cont: Vec<Action>,
+    /// object store only: the interrupted add_version is followed by its cleanup phase (as it
+    /// is with probability 5% in production), and everything stored so far is older than the
+    /// retention age
+    #[serde(default)]
+    pub store_cleanup: bool,
 }
 
 #[derive(Clone, Debug, PartialEq, Eq, Hash, Serialize, Deserialize)]
@@ -78,6 +83,7 @@ pub fn scn_strategy(backend: Backend) -> BoxedStrategy<Scn> {
         },
     )
         .prop_map(move |(initial, x_intents, race, race_at, git_snapshot, cont)| Scn {
+            store_cleanup: backend == Backend::ObjectStore && race_at % 2 == 1,
             backend,
             initial,
             x_intents,
@@ -205,6 +211,14 @@ fn run_until_fault(scn: &Scn, fault: Option<(usize, Kind)>) -> Result<(Run, Inte
         run.commit(r, intents)?;
         run.sync(r).map_err(|e| Failure::new("sync-error", format!("initial sync of replica {r} failed: {e:?}")))?;
     }
+    if scn.store_cleanup {
+        // The history so far is about to become older than the retention age, so a cleanup may
+        // remove it once a snapshot covers it.  A replica that has local changes but has never
+        // synchronized cannot join such a server (by design: only an empty replica starts from a
+        // snapshot), so every replica is brought up to date first.
+        run.sync(2).map_err(|e| Failure::new("sync-error", format!("initial sync of replica 2 failed: {e:?}")))?;
+        run.sync(1).map_err(|e| Failure::new("sync-error", format!("initial sync of replica 1 failed: {e:?}")))?;
+    }
     // X learns the current state, then edits
     run.sync(0).map_err(|e| Failure::new("sync-error", format!("initial sync of X failed: {e:?}")))?;
     run.commit(0, &scn.x_intents)?;
@@ -231,6 +245,19 @@ fn run_until_fault(scn: &Scn, fault: Option<(usize, Kind)>) -> Result<(Run, Inte
         run.bk.handle(hx, pushed)?;
         run.bk.handle(hy, pushed)?;
         let store = run.bk.store().unwrap().clone();
+        if scn.store_cleanup {
+            // everything stored so far (creation time 0) is older than the retention age, which is
+            // measured against the real clock; what is stored from now on is recent; X's
+            // add_version runs its cleanup phase
+            let now = std::time::SystemTime::now().duration_since(std::time::UNIX_EPOCH).map(|d| d.as_secs()).unwrap_or(0);
+            store.set_clock(now);
+            let mut h = taskchampion::server::verif::cloud_server(store.handle(hx), run.bk.cryptor().unwrap());
+            h.set_cleanup_probability(255);
+            run.bk.handles[hx] = Some(Box::new(h));
+            // (the draw that decides whether the cleanup runs; every other handle has
+            // probability 0)
+            taskchampion::server::verif::set_draws(vec![], Some(0));
+        }
         let sx = store.handle(hx);
         let sy = store.handle(hy);
         sx.arm(match &fault {
@@ -268,6 +295,7 @@ fn run_until_fault(scn: &Scn, fault: Option<(usize, Kind)>) -> Result<(Run, Inte
         };
         sx.set_gated(false);
         sy.set_gated(false);
+        taskchampion::server::verif::set_draws(vec![], Some(255));
         out.fired = fault.as_ref().map(|(i, _)| sx.requests() > *i).unwrap_or(false);
         out.steps = store
             .log()
@@ -276,6 +304,14 @@ fn run_until_fault(scn: &Scn, fault: Option<(usize, Kind)>) -> Result<(Run, Inte
             .map(|r| format!("{} {}", r.kind, if r.name.len() > 8 { &r.name[..8] } else { &r.name }))
             .collect();
         sx.arm(vec![]);
+        if std::env::var("VERIF_DEBUG").is_ok() {
+            for r in store.log() {
+                eprintln!("DEBUG store request: client {} {} {} -> {}", r.client, r.kind, r.name, format!("{} {:?}", r.result, r.fault));
+            }
+            for (n, t, v) in store.raw_list() {
+                eprintln!("DEBUG object {n} created {t} ({} bytes)", v.len());
+            }
+        }
         if racing {
             if let Err(e) = &results.outputs[1] {
                 crate::fail!("racer-sync-error", "the racing replica's sync failed although only X's requests were faulted: {e:?}");
@@ -396,9 +432,13 @@ pub fn count_steps(scn: &Scn) -> Result<Vec<String>, Failure> {
     }
 }
 
-fn walk(s: &mut Box<dyn Server>) -> Result<Vec<(Uuid, Uuid, Vec<u8>)>, Failure> {
+/// The chain as a new replica reads it: from the root, or - when a cleanup has removed the oldest
+/// versions because a snapshot covers them - from the snapshot the backend hands out.  Returns
+/// the state to start from and the versions after it.
+fn walk(s: &mut Box<dyn Server>) -> Result<(Model, Vec<(Uuid, Uuid, Vec<u8>)>), Failure> {
     let mut out = vec![];
     let mut p = Uuid::nil();
+    let mut start = Model::new();
     loop {
         match block_on(s.get_child_version(p)).map_err(|e| Failure::new("walk-error", format!("after restart get_child_version({p}) fails: {e:?}")))? {
             GetVersionResult::Version { version_id, parent_version_id, history_segment } => {
@@ -407,7 +447,19 @@ fn walk(s: &mut Box<dyn Server>) -> Result<Vec<(Uuid, Uuid, Vec<u8>)>, Failure> 
                 out.push((version_id, p, history_segment));
                 p = version_id;
             }
-            GetVersionResult::NoSuchVersion => return Ok(out),
+            GetVersionResult::NoSuchVersion => {
+                if p.is_nil() && out.is_empty() {
+                    let snap = block_on(s.get_snapshot()).map_err(|e| Failure::new("walk-error", format!("get_snapshot fails: {e:?}")))?;
+                    if let Some((v, bytes)) = snap {
+                        start = super::c12::decode_snapshot(&bytes).map_err(|e| Failure::new("bad-snapshot", e))?;
+                        // the version the snapshot belongs to stands for everything before it
+                        out.push((v, Uuid::nil(), vec![]));
+                        p = v;
+                        continue;
+                    }
+                }
+                return Ok((start, out));
+            }
         }
     }
 }
@@ -462,7 +514,7 @@ pub fn check_point(pt: &Point) -> CheckResult {
             f.msg = format!("after the fault at step {} ({:?}) the backend cannot be reopened: {}", pt.step, pt.kind, f.msg);
             f
         })?;
-        let chain = walk(s).map_err(|mut f| {
+        let (_, chain) = walk(s).map_err(|mut f| {
             f.signature = sig(&f.signature);
             f
         })?;
@@ -584,9 +636,11 @@ pub fn check_point(pt: &Point) -> CheckResult {
     run.restart();
     let pushed = run.pushed;
     let s = run.bk.handle(hx, pushed)?;
-    let chain = walk(s)?;
-    let mut m = Model::new();
+    let (mut m, chain) = walk(s)?;
     for v in &chain {
+        if v.2.is_empty() {
+            continue; // the snapshot's version
+        }
         m.apply_all(&parse_version(&v.2).map_err(|e| Failure::new("bad-version", e))?);
     }
     for r in 0..3 {
@@ -608,6 +662,7 @@ pub fn check_point(pt: &Point) -> CheckResult {
     rep.nontrivial = inside;
     rep.class_if(scn.race.is_some(), "with-racing-replica");
     rep.class_if(scn.git_snapshot, "interrupted-add-snapshot");
+    rep.class_if(scn.store_cleanup, "add-version-with-cleanup-phase-over-old-objects");
     Ok(rep)
 }
 
@@ -617,7 +672,7 @@ pub fn render(pt: &Point) -> serde_json::Value {
         "initial": pt.scn.initial.iter().map(|(r, i)| format!("R{r}: commit [{}]; sync", i.iter().map(render_intent).collect::<Vec<_>>().join(", "))).collect::<Vec<_>>(),
         "x_pending": pt.scn.x_intents.iter().map(render_intent).collect::<Vec<_>>(),
         "racing_replica": pt.scn.race.as_ref().map(|i| i.iter().map(render_intent).collect::<Vec<_>>()),
-        "interrupted_call": if pt.scn.git_snapshot { "add_snapshot" } else { "sync (add_version)" },
+        "interrupted_call": if pt.scn.git_snapshot { "add_snapshot" } else if pt.scn.store_cleanup { "sync (add_version followed by its cleanup phase; stored objects older than the retention age)" } else { "sync (add_version)" },
         "fault": format!("step {} of {}: '{}', {:?}", pt.index, pt.total_steps, pt.step, pt.kind),
         "then": if pt.restart { "restart (all handles dropped, backend reopened)" } else { "no restart: the same handles go on" },
         "continuation": pt.scn.cont.iter().map(render_action).collect::<Vec<_>>(),
